@@ -118,7 +118,16 @@ class Gen:
         kind = rng.weighted([("add", 10), ("new", 8), ("del", 24), ("con", 10), ("bond", 16), ("bonds", 4),
                              ("delb", 8), ("rmsub", 6), ("addh", 5), ("addbad", 3), ("readd", 4),
                              ("mkview", 7 if n else 0), ("vread", 9 if nv else 0), ("vwrite", 8 if nv else 0),
-                             ("pair", 8 if n else 0), ("rebond", 9 if self.r.bond_objs else 0), ("newbonds", 8), ("vedit", 9 if nv else 0)])
+                             ("pair", 8 if n else 0), ("rebond", 9 if self.r.bond_objs else 0), ("newbonds", 8), ("vedit", 9 if nv else 0),
+                             ("clone", 7), ("scribble", 6 if self.r.alias else 0), ("setq", 4 if self.r.kind == "m" else 0), ("setc", 4)])
+        if kind == "clone":
+            return ["clone", rng.choice(["shallow", "shallow", "deepcopy", "pickle", "ctor"]), rng.choice(["keep", "drop", "drop"])]
+        if kind == "scribble":
+            return ["scribble"]
+        if kind == "setq":
+            return ["setq", rng.below(1000), rng.choice(["array", "array", "list", "f32"])]
+        if kind == "setc":
+            return ["setc", rng.below(1000)]
         if kind == "vedit":
             k = max(0, nv - 1 - rng.below(min(nv, 3)))
             v = self.r.views[k][0]
@@ -530,7 +539,7 @@ def compare(ctx, res, mline):
             diff.append("X")
         # add_implicit_hydrogens: whether the routine raises is decided by property C16; the model op
         # takes the hydrogens that were in fact added, so only the state is compared for it
-        if out != mout and not (i > 0 and res["ops"][i - 1][0] in ("addh", "vedit")):
+        if out != mout and not (i > 0 and res["ops"][i - 1][0] in ("addh", "vedit", "clone")):
             diff.append("out")
         if diff:
             ctx.disagree(f"state after step {i - 1} differs in {diff}", {**tag, "step": i - 1, "op": res["ops"][i - 1] if i else None},
@@ -581,14 +590,14 @@ def run(ctx):
     nrand = 900 if ctx.quick() else 20000
     for _ in range(nrand):
         histories.append(("rand", ctx.rng.weighted([("m", 70), ("s", 30)]),
-                          ctx.rng.weighted([("empty", 20), ("small", 30), ("file", 25), ("clone", 25)]), None))
+                          ctx.rng.weighted([("empty", 18), ("small", 26), ("file", 18), ("clone", 14), ("clonesrc", 10), ("clonekw", 8), ("fromconf", 6)]), None))
 
     lines, results = [], []
     seen_kinds = set()
     for src, kind, start, ops in histories:
         ctx.check_deadline()
         if ops is None:
-            length = ctx.rng.range(4, 40 if start in ("empty", "small") else 30)
+            length = ctx.rng.range(4, 40 if start in ("empty", "small", "fromconf") else 30)
             res = run_history(kind, start, rng=ctx.rng, length=length)
         else:
             try:
